@@ -71,6 +71,9 @@ func currentOwner() string {
 	return ""
 }
 
+// CurrentOwner is currentOwner for the other seams of the simulator (MQTT publishes).
+func CurrentOwner() string { return currentOwner() }
+
 // ownedConn is the driver's end of a pipe.
 type ownedConn struct {
 	net.Conn
